@@ -118,6 +118,31 @@ func recordAPI(r *recorder, a *args) {
 				for k := 0; k < 3; k++ {
 					r.parse(g, ver, mutateBytes(rng, s))
 				}
+				// near-identical strings parsed back to back (a memo comparing only a prefix / a suffix / a hash shows here)
+				for k := 0; k < 3; k++ {
+					o3 := o.Clone()
+					var m string
+					switch k {
+					case 0:
+						m = ord[0]
+					case 1:
+						m = ord[len(ord)-1]
+					default:
+						m = ord[rng.Intn(len(ord))]
+					}
+					if err := o3.Set(m, vals[m][rng.Intn(len(vals[m]))]); err == nil {
+						s3 := o3.Vector()
+						r.parse(g, ver, s)
+						r.parse(g, ver, s3)
+					}
+				}
+				// Rating of every score, and of a few arbitrary numbers
+				if v.Rating != nil {
+					for _, sc := range v.Scores {
+						r.rating(g, ver, o.Score(sc))
+					}
+					r.rating(g, ver, float64(rng.Intn(1300)-100)/100)
+				}
 				// the object must still be what it was
 				r.get(g, ver, h, o, ord[rng.Intn(len(ord))])
 			}
